@@ -24,8 +24,28 @@ struct Built
     bool accepted = false;          // the pattern parser returned a value
     size_t predicted = 0; bool predicted_ok = false;
     size_t used = 0;
+    bool sized_by_library = false;
     rx::Dfa dfa;
 };
+
+// the real regex::analyze_dfa_size(const char (&)[N]) (= regex::expr<P>::dfa_size, regex_term<P>::dfa_size), instantiated per pattern length
+constexpr size_t MAX_SIZED = 40;
+template<size_t... I>
+static bool real_size_impl(const std::string& pat, size_t& out, std::index_sequence<I...>)
+{
+    bool done = false;
+    auto one = [&](auto ic)
+    {
+        constexpr size_t N = decltype(ic)::value + 2;      // pattern length + terminator
+        if (done || pat.size() + 1 != N) return;
+        char arr[N]; std::memcpy(arr, pat.data(), N - 1); arr[N - 1] = 0;
+        const char (&ref)[N] = arr;
+        out = ctpg::regex::analyze_dfa_size(ref); done = true;
+    };
+    (one(std::integral_constant<size_t, I>{}), ...);
+    return done;
+}
+static bool real_analyze_dfa_size(const std::string& pat, size_t& out) { if (pat.empty() || pat.size() > MAX_SIZED || pat.find('\0') != std::string::npos) return false; return real_size_impl(pat, out, std::make_index_sequence<MAX_SIZED>{}); }
 
 // what regex::expr<P>::expr() / analyze_dfa_size do, at run time
 static Built build_real(const std::string& pat, bool want_dfa)
@@ -37,6 +57,9 @@ static Built build_real(const std::string& pat, bool want_dfa)
         ctpg::regex::dfa_size_analyzer an;
         auto r = drive(an, buf);
         if (r.has_value()) { b.predicted_ok = true; b.predicted = r.value().n; }
+        // patterns of up to MAX_SIZED bytes: the capacity is what the library's own sizing function says (it must agree with the pass above or be larger)
+        size_t real = 0;
+        if (r.has_value() && real_analyze_dfa_size(pat, real)) { b.sized_by_library = true; b.predicted = real; }
     }
     catch (const std::exception& e) { b.threw = true; b.exc = std::string("analyzer: ") + e.what(); return b; }
     if (b.predicted_ok && b.predicted > CAP) return b;
@@ -119,7 +142,7 @@ struct PG
             for (int i = 0; i < n; ++i)
             {
                 int c1 = alpha_char();
-                if (ch.chance(1, 2)) { int c2 = c1 + int(ch.below(6)); if (c2 > 255) c2 = 255; s += esc_in(c1) + "-" + esc_in(c2); last_range = true; }
+                if (ch.chance(1, 2)) { int c2 = c1 + int(ch.below(6)); if (ch.chance(1, 8)) c2 = c1 + int(ch.below(uint32_t(256 - c1))); /* wide ranges, often across 0x7f/0x80 */ if (c2 > 255) c2 = 255; s += esc_in(c1) + "-" + esc_in(c2); last_range = true; }
                 else { s += esc_in(c1); last_range = false; }
             }
             if (last_range && ch.chance(1, 6)) s += "-";            // "[--Z-]" form: a '-' closing the set after a range is literal
@@ -318,7 +341,7 @@ struct P_C12a
         if (b.used > b.predicted) return Verdict::fail("automaton needs more states than the statically computed size", det);
         if ((p.nested_rep || p.rep_count >= 2) && st.counting && st.nontriv(eng::hstr(c.pat)))
         {
-            st.label("nontrivial"); if (p.nested_rep) st.label("nested-rep"); if (b.used == b.predicted) st.label("exact-fit");
+            st.label("nontrivial"); if (p.nested_rep) st.label("nested-rep"); if (b.used == b.predicted) st.label("exact-fit"); if (b.sized_by_library) st.label("capacity=regex::analyze_dfa_size(pattern)");
             if (st.want_sample()) { vj::Value s = vj::Value::object(); s.set("pattern", c.pat); s.set("predicted", (unsigned long long)b.predicted); s.set("used", (unsigned long long)b.used); st.sample(s); }
         }
         return Verdict::pass();
